@@ -5292,7 +5292,7 @@ impl<'a> Parser<'a> {
             let name = {
                 let ident = self.parse_identifier(false)?;
                 if !ident.value.starts_with('@') {
-                    Err(ParserError::TokenizerError(
+                    Err(ParserError::ParserError(
                         "Invalid MsSql variable declaration.".to_string(),
                     ))
                 } else {
